@@ -370,8 +370,12 @@ def _alarm(signum, frame):
     raise CaseTimeout()
 
 
-def _worker_init(modname):
-    global _PROP
+_TSCALE = 1
+
+
+def _worker_init(modname, tscale=1):
+    global _PROP, _TSCALE
+    _TSCALE = tscale
     sys.setrecursionlimit(6000)
     os.environ['PYTHONHASHSEED'] = '0'
     sys.path.insert(0, REPO)
@@ -384,8 +388,8 @@ def _worker_init(modname):
 
 
 def _worker_run(case):
-    t = getattr(_PROP, 'CASE_TIMEOUT', 10)
-    signal.alarm(t)
+    t = getattr(_PROP, 'CASE_TIMEOUT', 10) * _TSCALE
+    signal.alarm(int(t))
     try:
         try:
             r = _PROP.run_impl(case)
@@ -400,14 +404,23 @@ def _worker_run(case):
         return ['raise', type(e).__name__, str(e)[:200], traceback.format_exc()[-600:]]
 
 
-def run_impl_cases(modname, cases, procs=None):
+def run_impl_cases(modname, cases, procs=None, tscale=1, recheck_hangs=True):
     procs = procs or NPROC
     if not cases:
         return []
     ctx = mp.get_context('fork')
     chunk = max(1, min(50, len(cases) // (procs * 4) or 1))
-    with ctx.Pool(procs, initializer=_worker_init, initargs=(modname,)) as pool:
-        return pool.map(_worker_run, cases, chunksize=chunk)
+    with ctx.Pool(procs, initializer=_worker_init, initargs=(modname, tscale)) as pool:
+        out = pool.map(_worker_run, cases, chunksize=chunk)
+    # a time-out on a loaded machine is not evidence of non-termination: every case that timed out is run again,
+    # few at a time, with a ten-fold limit, and only a second time-out is reported as a hang
+    if recheck_hangs:
+        idx = [i for i, o in enumerate(out) if isinstance(o, list) and o[:1] == ['hang'] and o[1:2] != ['recursion']]
+        if idx and len(idx) <= 200:
+            again = run_impl_cases(modname, [cases[i] for i in idx], procs=min(4, procs), tscale=tscale * 10, recheck_hangs=False)
+            for i, o in zip(idx, again):
+                out[i] = o
+    return out
 
 
 # ------------------------------------------------------------------------------------------------
